@@ -8,6 +8,12 @@ pub mod path {
     pub struct OsStr { _p: [u8] }
     #[derive(Clone, Copy)]
     pub enum Component<'a> { Prefix(PrefixComponent), RootDir, CurDir, ParentDir, Normal(&'a OsStr) }
+    impl<'a> Component<'a> {
+        // ASSUMED (std): the OS string of an ordinary component is that component's name
+        #[verifier::external_body]
+        pub fn as_os_str(self) -> (r: &'a OsStr) ensures self matches Component::Normal(o) ==> r == o { unimplemented!() }
+    }
+    pub const MAIN_SEPARATOR: char = '/';     // cfg(unix)
     impl Clone for PrefixComponent { #[verifier::external_body] fn clone(&self) -> Self { PrefixComponent { k: self.k } } }
     impl Copy for PrefixComponent {}
 
@@ -19,6 +25,15 @@ pub mod path {
     pub uninterp spec fn spec_components(p: &Path) -> Seq<Component<'static>>;
     pub uninterp spec fn spec_path_of(s: Seq<char>) -> &'static Path;
 
+    impl PathBuf {
+        // the component list a PathBuf was built from (ghost); ASSUMED (std): new() is empty, push(name) of an ordinary
+        // component name appends one ordinary component
+        pub uninterp spec fn comps(&self) -> Seq<Component<'static>>;
+        #[verifier::external_body]
+        pub fn new() -> (p: PathBuf) ensures p.comps() == Seq::<Component<'static>>::empty() { unimplemented!() }
+        #[verifier::external_body]
+        pub fn push(&mut self, c: &OsStr) ensures final(self).comps() == old(self).comps().push(Component::Normal(c)) { unimplemented!() }
+    }
     impl Path {
         #[verifier::external_body]
         pub fn new(s: &String) -> (p: &Path)
@@ -36,6 +51,33 @@ pub mod path {
     impl<'a> Components<'a> {
         pub uninterp spec fn g_all(&self) -> Seq<Component<'static>>;
         pub uninterp spec fn g_pos(&self) -> int;
+        // ASSUMED (std Iterator::filter / fold, T12): specified through the closures' own contracts (call_ensures):
+        // `fold` threads the accumulator through exactly the elements for which the predicate answered true, in order
+        #[verifier::external_body]
+        pub fn filter<P: Fn(&Component<'a>) -> bool>(self, pred: P) -> (f: Filter<'a, P>)
+            requires forall|c: Component<'a>| pred.requires((&c,)), self.g_pos() == 0,
+            ensures f.g_src() == self.g_all(), f.g_pred() == pred,
+        { unimplemented!() }
+    }
+    #[verifier::external_body]
+    #[verifier::reject_recursive_types(P)]
+    pub struct Filter<'a, P> { _x: &'a u8, _p: P }
+    impl<'a, P: Fn(&Component<'a>) -> bool> Filter<'a, P> {
+        pub uninterp spec fn g_src(&self) -> Seq<Component<'static>>;
+        pub uninterp spec fn g_pred(&self) -> P;
+        #[verifier::external_body]
+        pub fn fold<B, F: Fn(B, Component<'a>) -> B>(self, init: B, f: F) -> (r: B)
+            requires forall|b: B, c: Component<'a>| self.g_pred().ensures((&c,), true) ==> f.requires((b, c)),
+            ensures exists|accs: Seq<B>| #[trigger] fold_rel(self.g_src(), self.g_pred(), f, init, accs) && r == accs.last(),
+        { unimplemented!() }
+    }
+    // accs[0] = init; accs[i+1] = the closure's result on (accs[i], src[i]) if the predicate holds for src[i], else accs[i]
+    pub open spec fn fold_rel<'a, B, P: Fn(&Component<'a>) -> bool, F: Fn(B, Component<'a>) -> B>(src: Seq<Component<'static>>, pred: P, f: F, init: B, accs: Seq<B>) -> bool {
+        &&& accs.len() == src.len() + 1
+        &&& accs[0] == init
+        &&& forall|i: int| 0 <= i < src.len() ==> (
+                (pred.ensures((&src[i],), true) && f.ensures((accs[i], src[i]), #[trigger] accs[i + 1]))
+                || (pred.ensures((&src[i],), false) && accs[i + 1] == accs[i]))
     }
     impl<'a> Iterator for Components<'a> {
         type Item = Component<'a>;
